@@ -123,7 +123,10 @@ def check(report: Report, repo: Repo) -> None:
             else:
                 report.add("R5-cache-flags", f"{cons}::new_forward::second-call", len(opt) == 0, f"[{sname}] a repeated call reuses the cached wrapper (every earlier transform applied exactly once)", len(opt), 0)
             pat = [e for e in it.events if e.kind == "call" and e["callee"].endswith("patch.object")]
-            okp = len(pat) == 1 and pat[0]["args"][0] is res and pat[0]["args"][1] == "forward" and pat[0]["args"][2] is res.attrs.get("base_forward")
+            def _pa(e, i, name):
+                return e["args"][i] if len(e["args"]) > i else e["kwargs"].get(name)
+
+            okp = len(pat) == 1 and _pa(pat[0], 0, "target") is res and _pa(pat[0], 1, "attribute") == "forward" and _pa(pat[0], 2, "new") is res.attrs.get("base_forward")
             report.add("R5-cache-flags", f"{cons}::new_forward::patch", okp, f"[{sname}] call {call_no}: the traced call sees base_forward as module.forward", len(pat), 1, nontrivial=False)
 
     # ------------------------------------------------ R2 composition order
